@@ -7,6 +7,7 @@ package ppp
 
 import (
 	"bufio"
+	"encoding/binary"
 	"encoding/hex"
 	"fmt"
 	"net"
@@ -135,7 +136,21 @@ func c06Build(proto string, f []string, cb Callbacks) c06Inst {
 			panic("bad magic")
 		}
 		l.SetMagic(uint32(m))
-		return c06Inst{h: l, nArgs: 1, peer: func() string {
+		return c06Inst{h: l, nArgs: 1,
+			// the values LCP suggests in a Configure-Nak are its own choice: projected when admissible
+			// (a non-zero 4-byte magic, an MRU it would accept itself, an authentication protocol it supports)
+			sugg: func(o Option) bool {
+				switch o.Type {
+				case LCPOptMagic:
+					return len(o.Data) == 4 && binary.BigEndian.Uint32(o.Data) != 0
+				case LCPOptMRU:
+					return len(o.Data) == 2 && binary.BigEndian.Uint16(o.Data) >= 64
+				case LCPOptAuthProto:
+					return string(o.Data) == "\xc0\x23" || string(o.Data) == "\xc2\x23\x05"
+				}
+				return false
+			},
+			peer: func() string {
 			p := l.PeerConfig()
 			return fmt.Sprintf("%d %d %d %d", p.MRU, p.Magic, p.AuthProto, p.AuthAlgo)
 		}}
@@ -272,7 +287,15 @@ func c06Fsm(f []string) string {
 	if len(acts) > 0 {
 		a = strings.Join(acts, " ")
 	}
-	return fmt.Sprintf("%s ; st=%d ; P=%s", a, final, inst.peer())
+	// the handler's verdict on the same request, from a twin object with the same configuration: visible also
+	// in the states in which the FSM sends nothing
+	verdict := "unparsed"
+	if opts, err := ParseOptions(c06Bytes(rest[2])); err == nil {
+		twin := c06Build(f[0], f[1:], Callbacks{})
+		ack, nak, rej := twin.h.ProcessConfReq(opts)
+		verdict = "A=" + c06ShowOpts(ack, nil) + " N=" + c06ShowOpts(nak, twin.sugg) + " R=" + c06ShowOpts(rej, nil)
+	}
+	return fmt.Sprintf("%s ; st=%d ; P=%s ; V %s", a, final, inst.peer(), verdict)
 }
 
 func c06Case(line string) (out string) {
